@@ -2,6 +2,8 @@ package drv
 
 import (
 	"encoding/json"
+	"github.com/q191201771/lal/pkg/base"
+	"github.com/q191201771/lal/pkg/remux"
 
 	"github.com/q191201771/lal/pkg/mpegts"
 
@@ -27,6 +29,24 @@ type tsScenario struct {
 	Frames []tsFrame `json:"frames"`
 	V      int       `json:"v"`
 	A      int       `json:"a"`
+	// kind "psi2": a second stream with other codecs starts while the tables of the first are still held
+	V2 int `json:"v2"`
+	A2 int `json:"a2"`
+}
+
+// tsHold keeps the PAT/PMT block a remuxer hands out, as logic.Group and hls.Muxer do (they write it in front of every
+// later fragment and to every later subscriber)
+type tsHold struct{ patpmt []byte }
+
+func (o *tsHold) OnPatPmt(b []byte)                                    { o.patpmt = b }
+func (o *tsHold) OnTsPackets(b []byte, f *mpegts.Frame, boundary bool) {}
+
+func tsStartStream(o *tsHold, v, a int) {
+	r := remux.NewRtmp2MpegtsRemuxer(o)
+	vh := map[int]byte{7: 0x17, 12: 0x1c}[v]
+	ah := map[int]byte{10: 0xaf, 13: 0xdf}[a]
+	r.FeedRtmpMessage(base.RtmpMsg{Header: base.RtmpHeader{MsgTypeId: base.RtmpTypeIdVideo, MsgLen: 6}, Payload: []byte{vh, 0, 0, 0, 0, 1}})
+	r.FeedRtmpMessage(base.RtmpMsg{Header: base.RtmpHeader{MsgTypeId: base.RtmpTypeIdAudio, MsgLen: 4}, Payload: []byte{ah, 0, 0x12, 0x10}})
 }
 
 func t3val(t proj.T3) uint64 { return uint64(t[0])<<30 | uint64(t[1])<<15 | uint64(t[2]) }
@@ -45,6 +65,27 @@ func tsDriver(env *Env) error {
 			return err
 		}
 		tw.Emit(M{"ev": "reset", "sc": sc.Sc, "kind": sc.Kind, "cc": sc.Cc})
+		if sc.Kind == "psi2" {
+			first, second := &tsHold{}, &tsHold{}
+			tsStartStream(first, sc.V, sc.A)
+			tsStartStream(second, sc.V2, sc.A2)
+			// the tables of the first stream, read now
+			for i, k := range []string{"pat", "pmt"} {
+				var b []byte
+				if len(first.patpmt) >= 188*(i+1) {
+					b = first.patpmt[188*i : 188*(i+1)]
+				}
+				p := proj.ParseTsPacket(b, false)
+				var sec *proj.PsiSection
+				if p.Body != nil && !p.Bad {
+					sec = proj.ParsePsi(p.Body)
+				} else {
+					sec = &proj.PsiSection{Bad: true, Programs: [][2]int{}, Streams: []proj.PsiStream{}, Body: []int{}}
+				}
+				tw.Emit(M{"ev": "Psi", "kind": k, "v": sc.V, "a": sc.A, "size": len(b), "pkt": p, "sec": sec})
+			}
+			return nil
+		}
 		if sc.Kind == "psi" {
 			for _, k := range []string{"pat", "pmt"} {
 				var b []byte
